@@ -208,7 +208,7 @@ pub fn describe_prog(p: &RedeemNode) -> (J, J, J) {
                     w.flush_all().unwrap();
                     nb
                 };
-                json!(["leaf", 0, 0, [ty_cz(&a.source), ty_cz(&a.target)], "jet", bits_j(BitIter::from(&code[..]).take(nb))])
+                json!(["leaf", 0, 0, [ty_cz(&a.source), ty_cz(&a.target)], "jet", bits_j(BitIter::from(&code[..]).take(nb)), j.to_string()])
             }
             Inner::Word(wd) => {
                 w = val_cz(&wd.as_value().as_ref(), &a.target);
